@@ -139,7 +139,13 @@ impl Session {
             dist: BTreeMap::new(),
             searching: false,
             start: Instant::now(),
-            budget_scale: 1.0,
+            // `check` raises the budget when /repo's source drifted from the recorded
+            // fingerprints (DESIGN §2.5 step 4)
+            budget_scale: std::env::var("VERIF_BUDGET_SCALE")
+                .ok()
+                .and_then(|s| s.parse::<f64>().ok())
+                .filter(|v| *v >= 1.0 && *v <= 100.0)
+                .unwrap_or(1.0),
             notes: vec![],
         }
     }
